@@ -4,6 +4,7 @@ import PdModel.Proto
 
 * `sorted N*`                         → `ok N*`                     (`sorted(names)`)
 * `projectname <E|-> N*`              → `ok <name>`                 (driver.get_system; E = --project-name)
+* `projectnameold <E|-> N*`           → `ok <name>`                 (the same step before /repo f35e237)
 * `pageurl FULL N*`                   → `ok <name>`                 (Documentable.url of a page object)
 * `symlink N*`                        → `none` | `link <name>` | `IndexError`   (writeSummaryPages tail)
 * `indexpage N*`                      → `yes` | `no`                (summaryPages: IndexPage present)
@@ -118,6 +119,10 @@ def handle (args : List String) : String :=
   | "projectname" :: e :: ns =>
     match (if e == "-" then some none else (decName e).map some), decNames ns with
     | some ex, some l => "ok " ++ encName (projectName ex l)
+    | _, _ => "bad-op"
+  | "projectnameold" :: e :: ns =>
+    match (if e == "-" then some none else (decName e).map some), decNames ns with
+    | some ex, some l => "ok " ++ encName (projectNameOld ex l)
     | _, _ => "bad-op"
   | "pageurl" :: f :: ns =>
     match decName f, decNames ns with
